@@ -148,8 +148,13 @@ func main() {
 		// F8 probe: long enough to be reliable when the packer is shared, short otherwise
 		if err == nil {
 			budget := 400
-			if shared || o.Search {
-				budget = o.Budget(4000, 15000)
+			switch {
+			case shared && o.Thorough():
+				budget = 15000
+			case shared:
+				budget = 4000
+			case o.Search:
+				budget = 3000
 			}
 			err = runF8(F8Case{Kind: "f8race", BudgetMs: budget}, dns, rep)
 		}
